@@ -176,6 +176,13 @@ func (m *Manager) getPrimaryStatus(status map[string]interface{}) map[string]int
 
 	status["listen_address"] = m.config.ListenAddr
 
+	// Get WAL sequence information before taking the sessions lock: asking the WAL takes the
+	// WAL lock, which a writer holds while it waits for the sessions lock
+	currentWalSeq := uint64(0)
+	if w := m.primary.currentWAL(); w != nil {
+		currentWalSeq = w.GetNextSequence() - 1 // Last used sequence
+	}
+
 	// Get detailed primary status
 	m.primary.mu.RLock()
 	defer m.primary.mu.RUnlock()
@@ -210,12 +217,6 @@ func (m *Manager) getPrimaryStatus(status map[string]interface{}) map[string]int
 		}
 
 		replicas = append(replicas, replicaInfo)
-	}
-
-	// Get WAL sequence information
-	currentWalSeq := uint64(0)
-	if w := m.primary.currentWAL(); w != nil {
-		currentWalSeq = w.GetNextSequence() - 1 // Last used sequence
 	}
 
 	// Add primary-specific information to status
